@@ -119,4 +119,17 @@ theorem klpqRow_const (c : ℝ) (n : Nat) : klpqRow (List.replicate (n + 1) c) =
   field_simp
 
 
+theorem zip_shift (l : List ℝ) (c : ℝ) :
+    ((l.map (· + c)).zip l).map (fun pq => pq.1 - pq.2) = List.replicate l.length c := by
+  induction l with
+  | nil => rfl
+  | cons x xs ih => simp [List.replicate_succ, ih]
+
+theorem sum_zip_replicate_div_mul (l : List ℝ) (a t : ℝ) :
+    (((List.replicate l.length a).zip l).map fun wq => wq.1 / t * wq.2).sum = a / t * l.sum := by
+  induction l with
+  | nil => simp
+  | cons x xs ih => simp [List.replicate_succ, ih, mul_add]
+
+
 end TT.C14
